@@ -503,6 +503,12 @@ func (e *Env) Abort(why string) {
 	e.stop = true
 }
 
+// RunSteps performs up to n scheduling steps (fewer if nothing is enabled).
+func (e *Env) RunSteps(n int) {
+	target := e.Sim.Stats.Steps + n
+	e.RunUntil(func() bool { return e.Sim.Stats.Steps >= target || e.Quiet() })
+}
+
 // Quiet reports whether nothing is runnable and nothing is in flight.
 func (e *Env) Quiet() bool {
 	return !e.Sim.HasRunnable() && e.Sim.Net.InFlight() == 0
